@@ -296,7 +296,7 @@ package db
 //@ func StorageIterator.Error(self)
 //@   modifies nothing
 //@ func StorageIterator.Next(self)
-//@   modifies self.curKey
+//@   modifies self.curKey, self.curVal
 //@ func github.com/syndtr/goleveldb/leveldb/comparer:BasicComparer.Compare(self, a, b)
 //@   ensures result == bytescmpv(bytesval(a), bytesval(b))
 //@   modifies nothing
@@ -328,3 +328,15 @@ package db
 //@   requires p != nil
 //@   at-call Delete assert[only-the-empty-raw-value-is-a-deletion] len(value) == 0 && arg1.arr == key.arr && arg1.off == key.off && len(arg1) == len(key)
 //@   at-call Put assert[a-marked-value-is-a-write-of-what-follows-the-marker] len(value) >= 1 && arg1.arr == key.arr && arg1.off == key.off && len(arg1) == len(key) && arg2.arr == value.arr && arg2.off == value.off + 1 && len(arg2) == len(value) - 1
+
+// ---- C06 / C07: a scan of a store never reports a deleted key ---------------------------------------------------------------------
+// A deletion leaves a marker with an empty raw value in the store (a rollback leaves one for every key the abandoned momentum
+// created). The logical layer's iterator must not stand on such an entry (before the fix it did, with a nil value: listing the
+// sporks after a rollback across a spork creation panicked).
+//@ model StorageIterator curVal int
+//@ func StorageIterator.Value(self)
+//@   ensures bytesval(result) == self.curVal && len(result) == blen(self.curVal)
+//@   modifies nothing
+//@ func enableDeleteIterator.Next(i) -> (ok)
+//@   requires i != nil && i.StorageIterator != nil
+//@   ensures[never-stands-on-a-deletion-marker] ok ==> blen(i.StorageIterator.curVal) != 0
